@@ -452,6 +452,8 @@ theorem names_nodup_invariant (s s' : WState) (op : Op) (hn : (names s.pipe).Nod
     | ok r =>
       obtain ⟨p', at'⟩ := r
       simp only [hs, pure, Except.pure] at h
+      split at h
+      · cases h
       injection h with h; subst h
       simp only
       by_cases hin : i.name ∈ names s.pipe
@@ -479,6 +481,20 @@ theorem names_nodup_invariant (s s' : WState) (op : Op) (hn : (names s.pipe).Nod
       injection h with h; subst h
       simp only
       simpa [setBBox_names _ _ _ hs] using hn
+
+/-- **reserved_name_rejected.** An `insert_frame` whose new frame is named like a read-only property of the WCS class is rejected,
+and (`stepTotal`) leaves frames, transforms, attributes and box exactly as they were - whatever the rest of the call looks like. -/
+theorem reserved_name_rejected (s : WState) (i o : FrameRef) (tr : Option TExpr) (p' : Pipeline TObj) (n : String) (v : Option Nat)
+    (h : insertFrame s.pipe i (tr.map (fun e => ⟨e, none⟩)) o = .ok (p', (n, v))) (hr : readOnlyNames.contains n = true) :
+    step s (.insertFrame i tr o) = .error .other ∧ (stepTotal s (.insertFrame i tr o)).1 = s := by
+  have h1 : step s (.insertFrame i tr o) = .error .other := by
+    simp only [step, bind, Except.bind, h, hr, if_true]
+    rfl
+  exact ⟨h1, by simp [stepTotal, h1]⟩
+
+example : (match step (initState [⟨"detector", some 0⟩, ⟨"sky", some 1⟩] [some (.shift 1), none])
+    (.insertFrame ⟨"detector", some 0⟩ (some (.scale 2)) ⟨"unit", some 2⟩) with | .error .other => true | _ => false) = true := by
+  decide +kernel
 
 /-- **run_names_nodup.** … hence after every finite history of edits, valid or not. -/
 theorem run_names_nodup (ops : List Op) (s : WState) (hn : (names s.pipe).Nodup) :
